@@ -682,13 +682,13 @@ of `arrayIndexOf` (one argument per element) -/
 def pDef : FuncDef :=
   { name := nm "p", args := [nm "a", nm "b"], lastArgArray := true,
     body := [logE (va "a"), logE (va "b"), .ret (some (.binary .eq (va "a") (.number 2)))] }
-example : obs (execute (xcfg host [(0, pDef)]) 200
+example : (obs (execute (xcfg host [(0, pDef)]) 200
       [.function 0 (nm "p") [nm "a", nm "b"] true false pDef.body,
        .expr none (callE "p" [.number 1, .number 2, .number 3]),
        .expr (some (nm "q")) (va "p"), .expr none (callE "q" []),
        .expr (some (nm "pp")) (callE "systemPartial" [va "p", .number 8, .number 9]), .expr none (callE "pp" [.number 10]),
        .expr (some (nm "ix")) (callE "arrayIndexOf" [callE "arrayNew" [.number 1, .number 2, .number 3], va "p"]),
-       .ret (some (va "ix"))] none (start [])) |>.log
+       .ret (some (va "ix"))] none (start []))).log
     = ["1", "[2,3]", "null", "[]", "8", "[9,10]", "1", "[]", "2", "[]"] := by decide +kernel
 
 end Examples
